@@ -308,6 +308,13 @@ func diagCases() []diagCase {
 		dc("left recursion", "behind a predicate-only rule: A <- G A 'x'; G <- &{p}", "A", gSeq(gN("G"), gN("A"), x()), "G", gPred()),
 		dc("left recursion", "behind an action: A <- {act} A 'x'", "A", gSeq(gAct(), gN("A"), x())),
 		dc("left recursion", "behind an empty literal: A <- () A 'x'", "A", gSeq(gNil(), gN("A"), x())),
+		// a consuming element in front: no report, whatever operator it is wrapped in
+		dc("left recursion", "guarded by a consuming +: A <- 'x'+ A? 'y'", "A", gSeq(gPlus(x()), gQ(gN("A")), gC("y"))),
+		dc("left recursion", "guarded by + of a rule: A <- S+ A? '.'; S <- 'x' ';'", "A", gSeq(gPlus(gN("S")), gQ(gN("A")), gC(".")), "S", gSeq(x(), gC(";"))),
+		dc("left recursion", "guarded by a capture: A <- <'x'> A?", "A", gSeq(gPush(x()), gQ(gN("A")))),
+		dc("left recursion", "guarded by a choice of consuming alternatives: A <- ('x' / 'y') A?", "A", gSeq(gAlt(x(), gC("y")), gQ(gN("A")))),
+		dc("left recursion", "guarded by + of a choice: A <- ('x' / 'y' 'z')+ A 'w' / 'v'", "A", gAlt(gSeq(gPlus(gAlt(x(), gSeq(gC("y"), gC("z")))), gN("A"), gC("w")), gC("v"))),
+		dc("left recursion", "+ of a nullable operand does not guard: A <- ('x'?)+ A 'y'", "A", gSeq(gPlus(gQ(x())), gN("A"), gC("y"))),
 		dc("left recursion", "later alternative: A <- 'x' / A 'y'", "A", gAlt(x(), gSeq(gN("A"), gC("y")))),
 		dc("left recursion", "alternative after a non-consuming one: A <- &'q' / A 'x'", "A", gAlt(gAnd(gC("q")), gSeq(gN("A"), x()))),
 		dc("left recursion", "indirect: A <- B 'x'; B <- A?", "A", gSeq(gN("B"), x()), "B", gQ(gN("A"))),
